@@ -109,6 +109,41 @@ def mutate(r: random.Random, pol: dict) -> dict:
     return p
 
 
+def bool_number_twin(r: random.Random, doc):
+    """a copy of `doc` in which ONE leaf true/false became 1/0 or a leaf 1/0 became true/false (equal under Python's ==, different
+    JSON types); None if the document has no such leaf"""
+    p = copy.deepcopy(doc)
+    spots = []
+
+    def walk(v):
+        items = v.items() if isinstance(v, dict) else enumerate(v) if isinstance(v, list) else ()
+        for k, x in items:
+            if isinstance(x, bool) or (isinstance(x, (int, float)) and x in (0, 1)):
+                spots.append((v, k))
+            else:
+                walk(x)
+    walk(p)
+    if not spots:
+        return None
+    holder, k = gen.choice(r, spots)
+    x = holder[k]
+    holder[k] = int(x) if isinstance(x, bool) else bool(x)
+    return p
+
+
+def twin_pairs() -> list:
+    """(schema-valid document, its bool↔number twin) where the schema tells the two apart"""
+    rule = {"id": "r", "effect": "permit", "actions": ["read"], "resource": {"type": "doc"}}
+    out = []
+    for a, b in ((True, 1), (False, 0)):
+        out.append(({"rules": [{**rule, "condition": a}]}, {"rules": [{**rule, "condition": b}]}))
+    for op in (">", "<", ">=", "<="):
+        for a, b in ((1, True), (0, False)):
+            out.append(({"rules": [{**rule, "condition": {op: [{"attr": "resource.attrs.n"}, a]}}]},
+                        {"rules": [{**rule, "condition": {op: [{"attr": "resource.attrs.n"}, b]}}]}))
+    return out
+
+
 def roundtrip(r: random.Random, pol: dict) -> dict:
     k = r.random()
     try:
